@@ -109,7 +109,7 @@ PROFILES = {
                    p_mutating_functions=0.2),
     "C07": profile(p_all_fixed=0.08, p_inconsistent=0.08, p_target=0.3, p_no_obj=0.15, p_callback=0.6),
     "C08": profile(p_all_fixed=0.06, p_inconsistent=0.06, p_nan_bound=0.06, p_wide_radii=0.2, p_constants=0.4,
-                   p_no_obj=0.12),
+                   p_no_obj=0.12, p_strict_dims=0.5, p_disp=0.3, p_fixed=0.4, p_nonlinear=0.55),
     "C09": profile(p_no_obj=0.2, p_callback=1.0, p_nonlinear=0.55, p_inconsistent=0.0, p_all_fixed=0.0,
                    p_soc_bias=0.3),
     "C20": profile(p_callback=1.0, p_scale=0.4, p_fixed=0.4, p_bounds=0.8, p_inconsistent=0.0, p_all_fixed=0.0,
